@@ -47,6 +47,23 @@ def has_sec(e):
     return False
 
 
+# which index expression the reader builds for a strided section (probed on the real reader by check.py at
+# the start of every run): True = start + (widx - 1) * stride, False = start + widx - 1 (stride dropped)
+FX = True
+
+
+def _first_sec(e):
+    k = e[0]
+    if k == "sec":
+        return e
+    subs = e[2] if k in ("idx", "intr") else [e[2]] if k in ("un", "red") else [e[2], e[3]] if k == "bin" else []
+    for x in subs:
+        r = _first_sec(x)
+        if r is not None:
+            return r
+    return None
+
+
 RED = {"SUM": "RSum", "PRODUCT": "RProduct", "MAXVAL": "RMaxval", "MINVAL": "RMinval"}
 
 
@@ -55,9 +72,15 @@ def wexpr(e, nm, rank1):
         return "(WScal %s)" % mf.expr_to_coq(core_expr(e), nm)
     k = e[0]
     if k == "sec":
-        if e[2] != [(":",)] or e[1] not in rank1:
+        if e[1] not in rank1 or len(e[2]) != 1:
             raise NotModelled("section form")
-        return "(WArr %d%%nat)" % nm.get(e[1])
+        sub = e[2][0]
+        if sub == (":",):
+            return "(WArr %d%%nat)" % nm.get(e[1])
+        if sub[0] == "rng" and all(x[0] == "lit" and x[1] >= 0 for x in sub[1:]):
+            st = sub[3][1] if len(sub) > 3 else 1
+            return "(WSec %s %d%%nat (%d) (%d) (%d))" % ("true" if FX else "false", nm.get(e[1]), sub[1][1], sub[2][1], st)
+        raise NotModelled("section form")
     if k == "un":
         return "(WUn %s %s)" % (e[1], wexpr(e[2], nm, rank1))
     if k == "bin":
@@ -154,6 +177,9 @@ def sstmt(s, nm, rank1, fresh):
             mask, body, els = s[1], [s[2]], []
         else:
             mask, body, els = s[1], s[2], s[3]
+        fs = _first_sec(mask)
+        if fs is None or fs[2] != [(":",)]:
+            raise NotModelled("loop sized from a section that is not full-range")
         b = "[%s]" % "; ".join(witem(it, nm, rank1, fresh) for it in body)
         e = []
         for m, bb in els:
